@@ -45,6 +45,7 @@ type Backend struct {
 	wrap func(store.Store) store.Store
 	// strings clover returned earlier, kept as they were handed out, next to copies of their bytes: Go
 	// strings are immutable, so they must still read the same after any number of later calls
+	heldMu   sync.Mutex // concurrent programs call into one Backend from several goroutines
 	held     [][]string
 	heldCopy [][]string
 	// every call runs in a goroutine of its own (deadline); enter, when set, is told the calling
@@ -71,6 +72,8 @@ func (b *Backend) hold(v []string) {
 	for i, s := range v {
 		cp[i] = string(append([]byte(nil), s...))
 	}
+	b.heldMu.Lock()
+	defer b.heldMu.Unlock()
 	if len(b.held) >= 4 {
 		b.held, b.heldCopy = b.held[1:], b.heldCopy[1:]
 	}
@@ -79,6 +82,8 @@ func (b *Backend) hold(v []string) {
 
 // heldIntact reports whether every string kept by hold still reads as it did.
 func (b *Backend) heldIntact() (ok bool) {
+	b.heldMu.Lock()
+	defer b.heldMu.Unlock()
 	defer func() {
 		if recover() != nil {
 			ok = false
@@ -1110,7 +1115,9 @@ func (x *Exec) Run(b *Backend, e E, genIds [][]byte) E {
 	})
 	if res["harm"] == nil && !b.heldIntact() {
 		res["harm"] = "strings returned by an earlier ListCollections read differently now"
+		b.heldMu.Lock()
 		b.held, b.heldCopy = nil, nil
+		b.heldMu.Unlock()
 	}
 	return res
 }
